@@ -280,6 +280,12 @@ func (w *World) Exec(n int, st *Step) *Obs {
 	secVal := w.resolve(st.Sec)
 	sec2Val := w.resolve(st.Sec2)
 	w.lastSec, w.lastSec2 = secVal, sec2Val
+	if st.Sec != nil && (st.Sec.Kind == "totp" || st.Sec.Kind == "totp_pending") && st.Sec.Mut == "" && (st.Kind == "totp_validate" || st.Kind == "totp_confirm") {
+		if w.lastTOTP == nil {
+			w.lastTOTP = map[int]string{}
+		}
+		w.lastTOTP[st.A] = secVal
+	}
 
 	switch st.Kind {
 	case "advance":
